@@ -359,3 +359,25 @@ impl<V> DotBuilder for HeaderMatcher<V> {
         Some(node_name)
     }
 }
+
+#[cfg(feature = "verif")]
+mod verif_hooks {
+    use super::HeaderMatcher;
+    use crate::router::verif_hooks::VerifRouterDump;
+
+    impl<T> HeaderMatcher<T> {
+        pub(crate) fn verif_walk(&self, path: &str, dump: &mut VerifRouterDump) {
+            self.any_header.verif_walk(format!("{path}/hdr=*").as_str(), dump);
+
+            for (conditions, matcher) in &self.condition_groups {
+                let group = conditions
+                    .iter()
+                    .map(|c| format!("{} {}", c.header_name, c.condition.format()))
+                    .collect::<Vec<String>>()
+                    .join(" & ");
+
+                matcher.verif_walk(format!("{path}/hdr{{{group}}}").as_str(), dump);
+            }
+        }
+    }
+}
